@@ -10,8 +10,11 @@ harness diffs against /repo on every run (ok value / err / panic).
 Parameters: `E : Convert.Env` carries what the conversion files take from
 elsewhere — the type result of `unify` (C09) and the hash / equivalence / order of
 set members (C03).  Theorems hold for every `E` satisfying the stated laws
-(`UnifyLaws`, `SetLaws`; both hold of `Env.simple`, and the harness probes them on
-the real code), every fuel, and values / types of any depth.  Capsule types have
+(`UnifyLaws`: identical types unify to that type; `SetLaws`: hash and equivalence do
+not panic on well-typed, mark-free, wholly-known members), every fuel, and values /
+types of any depth.  Both laws are PROVED of `Convert.driverEnv`, the environment the
+correspondence driver runs (`unifyLaws_driver`, `setLaws_driver`), and the main
+clauses are restated for it without law hypotheses (`…_driver`).  Capsule types have
 no conversion callbacks in the model.
 
 "Placeholder-free" theorems (`…_partial`) assume `RegularPair v want`: a
@@ -26,6 +29,14 @@ import CtyModel.Lemmas.ConvertSafe
 import CtyModel.Lemmas.ConvertRoundtrip
 import CtyModel.Generated.PrimConv
 import CtyModel.ConvertUnify
+import CtyModel.ConvertD08Env
+import CtyModel.Lemmas.ConvertD08SetEnv
+import CtyModel.Lemmas.UnifyTyLaws
+import CtyModel.Lemmas.ConvertD08Mono
+import CtyModel.Lemmas.ConvertD08Fuel
+import CtyModel.Lemmas.ConvertD08Covers
+import CtyModel.Lemmas.ConvertD08Roundtrip
+import CtyModel.Lemmas.ConvertD08CoversColl
 namespace CtyModel
 namespace C08
 open Convert Ty
@@ -123,7 +134,7 @@ theorem identity_own_type (E : Env) (fuel : Nat) (v : Value) (hw : Value.wt v = 
   simp only [Value.wt, Bool.and_eq_true, Bool.not_eq_true'] at hw
   apply convert_identity
   rw [stripOpt_id_of_noOpt _ hw.1.2]
-  exact equals_self hw.1.1
+  exact Convert.equals_self hw.1.1
 
 /-- Converting the result again gives the same result. -/
 theorem idempotent_partial (E : Env) (hU : UnifyLaws E) (fuel fuel' : Nat) (v r : Value) (want : Ty)
@@ -191,6 +202,142 @@ unknown set of at least 2 strings becomes an unknown set of numbers with at leas
 example : convert Env.simple 4 ⟨.set .string, .unk (.coll .u 2 3)⟩ (.set .number) =
     .ok ⟨.set .number, .unk (.coll .u 1 3)⟩ := rfl
 
+/-! ### … stated with `Covers`, marked inputs included
+
+`Covers a c` (DESIGN §3.6): the abstract value `a` admits `c`.  The clause "for unknown or null
+input returns an unknown or null of the target type whose refinements admit the conversion of
+every admitted input" is monotonicity of the conversion along `Covers`. -/
+
+/-- A marked input — known, unknown or null — is converted without its marks and gets them back:
+this lifts `null_sound_partial` and `unknown_sound_partial` (stated for unmarked inputs) to marked ones,
+for every conversion `GetConversion*` returns, every environment and fuel. -/
+theorem marked_input (E : Env) (fuel : Nat) (out : Ty) (conv : Plan) (v : Value) (hm : v.isMarked = true) :
+    apply E (fuel + 1) (.wrap out conv) v =
+      (match apply E fuel (.wrap out conv) v.unmark with
+       | .ok r => .ok (r.withMarks v.marks)
+       | other => other) :=
+  apply_marked E fuel out conv v hm
+
+/-- Conversions between primitive types: `v` unknown with any refinement (marked or not), `v'` any
+well-typed value of the same type that `v` admits — a null, a more refined unknown, or a known value,
+marked or not.  The result for `v` admits the result for `v'` (`Covers`), whichever conversion
+(`GetConversion` or `GetConversionUnsafe`), environment and fuels.  (List and map targets:
+`unknown_covers_coll_partial`; set targets, where members may coalesce: `unknown_covers_set_partial`;
+the admitted null, every target: `unknown_covers_null_partial`.) -/
+theorem unknown_covers_prim_partial (E : Env) (hU : UnifyLaws E) (fuel fuel' : Nat) (uns : Bool)
+    (v v' r r' : Value) (want : Ty) (p : Plan) (hpv : isPrim v.ty = true) (hw : isPrim want = true)
+    (hwt : wtP v.ty v.v = true) (hwt' : wtP v'.ty v'.v = true) (hty : v'.ty = v.ty)
+    (hg : getConv E v.ty want uns = some p) (hk : v.isKnown = false) (hc : Covers v v' = true)
+    (h : apply E fuel p v = .ok r) (h' : apply E fuel' p v' = .ok r') : Covers r r' = true :=
+  unknown_covers_prim hU hpv hw hwt hwt' hty hg hk hc h h'
+
+/-- LIST AND MAP TARGETS, the known-collapse case included.  `v` unknown — a list, set, map, tuple or
+object type with any refinement, marked or not; `v'` a wholly-known non-null value of the same type that
+`v` admits (`Covers v v'`), marked or not at any depth, whose number of members fits an `int`.  The
+result for `v` is an unknown list / map carrying the length refinement `prepareUnknownResult` derives
+— or, when that length is exact, the KNOWN list of that many unknown members, or the empty list / map
+— and it admits the result for `v'`: the bounds admit the converted collection's length, and each
+unknown member of a collapsed result admits the corresponding converted member. -/
+theorem unknown_covers_coll_partial (E : Env) (hU : UnifyLaws E) (fuel fuel' : Nat) (uns : Bool)
+    (v v' r r' : Value) (want : Ty) (p : Plan) (hT : (∃ e, want = .list e) ∨ (∃ e, want = .map e))
+    (hp : RegularPair v want) (hwt' : wtP v'.ty v'.v = true) (hty : v'.ty = v.ty)
+    (hg : getConv E v.ty want uns = some p) (hk : v.isKnown = false)
+    (hk' : v'.isKnown = true) (hn' : v'.isNull = false) (hwk' : v'.v.whollyKnown = true)
+    (hfit : (srcLen v'.v.unmark1 : Int) ≤ CtyModel.maxInt) (hc : Covers v v' = true)
+    (h : apply E fuel p v = .ok r) (h' : apply E fuel' p v' = .ok r') : Covers r r' = true :=
+  unknown_covers_coll hU hT hp hwt' hty hg hk hk' hn' hwk' hfit hc h h'
+
+/-- SET TARGETS.  As `unknown_covers_coll_partial`, for a conversion to a set type: the converted known
+value may have fewer members than the admitted value had (members coalesce) but not none if it had
+any, and that is exactly what the result for the unknown says — lower bound 1 if the source cannot be
+empty, the source's upper bound, and when both are 0 or 1 the known empty set / the set of one unknown
+member. -/
+theorem unknown_covers_set_partial (E : Env) (hU : UnifyLaws E) (fuel fuel' : Nat) (uns : Bool)
+    (v v' r r' : Value) (oe : Ty) (p : Plan)
+    (hp : RegularPair v (.set oe)) (hwt' : wtP v'.ty v'.v = true) (hty : v'.ty = v.ty)
+    (hg : getConv E v.ty (.set oe) uns = some p) (hk : v.isKnown = false)
+    (hk' : v'.isKnown = true) (hn' : v'.isNull = false) (hwk' : v'.v.whollyKnown = true)
+    (hfit : (srcLen v'.v.unmark1 : Int) ≤ CtyModel.maxInt) (hc : Covers v v' = true)
+    (h : apply E fuel p v = .ok r) (h' : apply E fuel' p v' = .ok r') : Covers r r' = true :=
+  unknown_covers_set hU hp hwt' hty hg hk hk' hn' hwk' hfit hc h h'
+
+/-- Conversions to a set type never invent members and never lose all of them. -/
+theorem set_length_bounds_partial (E : Env) (hU : UnifyLaws E) (fuel : Nat) (uns : Bool) (v r : Value)
+    (oe : Ty) (p : Plan) (hp : RegularPair v (.set oe)) (hg : getConv E v.ty (.set oe) uns = some p)
+    (hm : v.isMarked = false) (hk : v.isKnown = true) (hn : v.isNull = false)
+    (h : apply E fuel p v = .ok r) :
+    ∃ ids xs, r.v.stripMarks = .sset ids xs ∧ min 1 (srcLen v.v) ≤ xs.length ∧ xs.length ≤ srcLen v.v :=
+  apply_len_set hU hp hg hm hk hn h
+
+/-- the collapse at work: an unknown list of exactly two strings, not null, converts to the KNOWN list of two
+unknown numbers, which admits the conversion `[1, 2]` of the admitted `["1", "2"]` -/
+example :
+    convert Env.simple 4 ⟨.list .string, .unk (.coll .f 2 2)⟩ (.list .number) =
+      .ok ⟨.list .number, .seq [.unk .unref, .unk .unref]⟩ ∧
+    Covers ⟨.list .string, .unk (.coll .f 2 2)⟩ ⟨.list .string, .seq [.s "1", .s "2"]⟩ = true ∧
+    Covers ⟨.list .number, .seq [.unk .unref, .unk .unref]⟩
+      ⟨.list .number, .seq [.n (.fin false 1 0 512), .n (.fin false 1 1 512)]⟩ = true := by
+  refine ⟨rfl, by decide, by decide⟩
+
+/-- Conversions to a list / map type keep the number of elements (clause "preserves the converted value's
+information"): an unmarked known non-null value — a set only if its length is known — converted by a
+conversion `GetConversion*` returns gives a list / map with exactly as many members. -/
+theorem list_map_length_preserved_partial (E : Env) (hU : UnifyLaws E) (fuel : Nat) (uns : Bool) (v r : Value)
+    (want : Ty) (p : Plan) (hp : RegularPair v want) (hg : getConv E v.ty want uns = some p)
+    (hm : v.isMarked = false) (hk : v.isKnown = true) (hn : v.isNull = false) (hlk : lengthKnown v = true)
+    (h : apply E fuel p v = .ok r) :
+    (∀ oe, want = .list oe → ∃ xs, r.v = .seq xs ∧ xs.length = srcLen v.v) ∧
+    (∀ oe, want = .map oe → ∃ ks xs, r.v = .smap ks xs ∧ xs.length = srcLen v.v) :=
+  apply_len hU hp hg hm hk hn hlk h
+
+/-- EVERY placeholder-free target, collections included: `v` unknown (any refinement, marked or
+not), `v'` a null of the same type (marked or not) that `v` admits.  The result for `v` — an unknown
+of the target type, whatever length refinement `prepareUnknownResult` gave it, or the null a
+refinement "is null" collapses to — admits the result for `v'`. -/
+theorem unknown_covers_null_partial (E : Env) (hU : UnifyLaws E) (fuel fuel' : Nat) (uns : Bool)
+    (v v' r r' : Value) (want : Ty) (p : Plan) (hp : RegularPair v want) (hwt' : wtP v'.ty v'.v = true)
+    (hty : v'.ty = v.ty) (hg : getConv E v.ty want uns = some p) (hk : v.isKnown = false)
+    (hn' : v'.isNull = true) (hc : Covers v v' = true)
+    (h : apply E fuel p v = .ok r) (h' : apply E fuel' p v' = .ok r') : Covers r r' = true :=
+  unknown_covers_null hU hp hwt' hty hg hk hn' hc h h'
+
+/-- Full statement of the clause as monotonicity along `Covers` for ALL admitted values, partly
+unknown ones included.  FALSE of the code as it stands — a matter of precision, not of soundness
+for concrete values: see `unknown_covers_counterexample`. -/
+def UnknownCoversAll : Prop :=
+  ∀ (E : Env) (fuel : Nat) (v v' r r' : Value) (want : Ty), UnifyLaws E → RegularPair v want →
+    RegularPair v' want → v'.ty = v.ty → v.isKnown = false → Covers v v' = true →
+    convert E fuel v want = .ok r → convert E fuel v' want = .ok r' → Covers r r' = true
+
+/-- the witness: an unknown set of 1 to 5 strings admits the known set {unknown, "a"} (which has 1 or 2
+members).  Converted to a list, the unknown set keeps its bounds (list of 1 to 5 strings), but the
+known set — its number of members being unknown — becomes an UNREFINED unknown list, which the
+refined result does not admit (it could be empty, or longer than 5).  `conversionCollectionToList`
+could return `UnknownVal(list).Refine().CollectionLengthLowerBound(1).CollectionLengthUpperBound(2)`
+from `val.LengthInt()`'s range instead; every CONCRETE list the known set stands for is admitted. -/
+theorem unknown_covers_counterexample :
+    Covers ⟨.set .string, .unk (.coll .u 1 5)⟩ ⟨.set .string, .sset [1, 2] [.unk .unref, .s "a"]⟩ = true ∧
+    convert Env.simple 4 ⟨.set .string, .unk (.coll .u 1 5)⟩ (.list .string) =
+      .ok ⟨.list .string, .unk (.coll .u 1 5)⟩ ∧
+    convert Env.simple 4 ⟨.set .string, .sset [1, 2] [.unk .unref, .s "a"]⟩ (.list .string) =
+      .ok ⟨.list .string, .unk .unref⟩ ∧
+    Covers ⟨.list .string, .unk (.coll .u 1 5)⟩ ⟨.list .string, .unk .unref⟩ = false := by
+  refine ⟨by decide, rfl, rfl, by decide⟩
+
+theorem unknownCoversAll_false : ¬ UnknownCoversAll := by
+  intro h
+  have := h Env.simple 4 ⟨.set .string, .unk (.coll .u 1 5)⟩ ⟨.set .string, .sset [1, 2] [.unk .unref, .s "a"]⟩
+    ⟨.list .string, .unk (.coll .u 1 5)⟩ ⟨.list .string, .unk .unref⟩
+    (.list .string) unifyLaws_simple ⟨by decide, by decide, by decide⟩
+    ⟨by decide, by decide, by decide⟩ rfl rfl unknown_covers_counterexample.1
+    unknown_covers_counterexample.2.1 unknown_covers_counterexample.2.2.1
+  rw [unknown_covers_counterexample.2.2.2] at this
+  exact absurd this (by decide)
+
+/-- a marked unknown number that is not null admits the marked known 1.5; so do the results -/
+example : Covers ⟨.number, .marked ["m"] (.unk (.num .f none none))⟩ ⟨.number, .n (.fin false 3 (-1) 53)⟩ = true := by
+  decide
+
 /-! ## No panic -/
 
 /-- For a placeholder-free target and a value without unknown parts (nulls and marks are
@@ -234,6 +381,52 @@ theorem safe_total_partial (E : Env) (hU : UnifyLaws E) (hS : SetLaws E) (fuel :
 /-- with enough fuel the sample conversion of the non-vacuity section does return a value -/
 example : (apply Env.simple 8 (.wrap (.list .string) (.collToList .string (.wrap .string .boolToStr)))
     ⟨.list .bool, .seq [.b true, .null]⟩).isOk = true := by decide
+
+/-! ## Fuel: the model's results are monotone in the fuel, and enough fuel is explicit
+
+`apply E 0 _ _ = .unmodelled`, so at small fuel the theorems above hold for a trivial reason.
+These two facts rule that reading out: an outcome other than `.unmodelled` never changes when
+more fuel is given, and for safe conversions twice the nesting depth of the value is enough. -/
+
+/-- An outcome other than "out of fuel" is the outcome at every larger fuel — for every
+environment, plan and value (no side condition at all). -/
+theorem fuel_monotone (E : Env) (fuel fuel' : Nat) (hle : fuel ≤ fuel') (p : Plan) (v : Value)
+    (h : apply E fuel p v ≠ .unmodelled) : apply E fuel' p v = apply E fuel p v :=
+  apply_mono E hle p v h
+
+/-- … and likewise for `Convert`. -/
+theorem fuel_monotone_convert (E : Env) (fuel fuel' : Nat) (hle : fuel ≤ fuel') (v : Value) (want : Ty)
+    (h : convert E fuel v want ≠ .unmodelled) : convert E fuel' v want = convert E fuel v want :=
+  convert_mono E hle v want h
+
+/-- an environment whose set parameters always answer satisfies the set laws -/
+theorem setLaws_of_total (E : Env) (hT : SetTotal E) : SetLaws E where
+  hash_ok := fun t p hw hm => .inl (hT.hash_ok t p hw hm)
+  equiv_ok := fun t a b hw ha hb => .inl (hT.equiv_ok t a b hw ha hb)
+
+/-- Fuel adequacy: with `fuel ≥ 2 · depth(value)` a safe conversion to a placeholder-free target,
+applied to a well-typed wholly-known value, does not run out of fuel (when the set parameters
+themselves answer: `SetTotal`, e.g. `Env.simple`; `hashC` / `equivC` of the driver give up only on
+strings outside the modelled `%q` range and on capsule members). -/
+theorem safe_fuel_adequate_partial (E : Env) (hU : UnifyLaws E) (hT : SetTotal E) (v : Value) (want : Ty)
+    (p : Plan) (hp : RegularPair v want) (hk : Payload.whollyKnown v.v = true)
+    (hg : getConversion E v.ty want = some p) :
+    ∀ fuel, 2 * v.v.depth ≤ fuel → apply E fuel p v ≠ .unmodelled :=
+  fun _ hf => apply_safe_fin hU hT hp hk hg hf
+
+/-- `safe_total_partial` without its `∨ … = .unmodelled` disjunct: with adequate fuel a safe
+conversion RETURNS A VALUE of the target type — and the same value for every larger fuel. -/
+theorem safe_total_adequate_partial (E : Env) (hU : UnifyLaws E) (hT : SetTotal E) (fuel : Nat) (v : Value)
+    (want : Ty) (p : Plan) (hp : RegularPair v want) (hk : Payload.whollyKnown v.v = true)
+    (hg : getConversion E v.ty want = some p) (hf : 2 * v.v.depth ≤ fuel) :
+    ∃ r, apply E fuel p v = .ok r ∧ r.ty = want.stripOpt ∧ ∀ fuel', fuel ≤ fuel' → apply E fuel' p v = .ok r := by
+  rcases safe_total_partial E hU (setLaws_of_total E hT) fuel v want p hp hk hg with ⟨r, hr, hty⟩ | hu
+  · refine ⟨r, hr, hty, fun fuel' hle => ?_⟩
+    rw [apply_mono E hle p v (by rw [hr]; simp), hr]
+  · exact absurd hu (apply_safe_fin hU hT hp hk hg hf)
+
+example : SetTotal Env.simple := setTotal_simple
+example : 2 * (Payload.seq [.b true, .null]).depth ≤ 4 := by decide
 
 /-! ## Everything offered as safe is offered as unsafe -/
 
@@ -321,8 +514,7 @@ theorem roundtripNumberString_false : ¬ RoundtripNumberString := by
 
 /-- what does hold for every environment and fuel: zeros keep their sign and the
 infinities come back (the harness evaluates the round trip on every generated
-number; the class of finite non-zero numbers whose printed text is exact is not
-characterised here) -/
+number; the exact class of numbers that come back is `numTextExact`, below) -/
 theorem roundtrip_number_string_partial (E : Env) (fuel : Nat) (neg : Bool) (p : Nat) :
     (∃ s, convert E (fuel + 2) ⟨.number, .n (.inf neg)⟩ .string = .ok ⟨.string, .s s⟩ ∧
       convert E (fuel + 2) ⟨.string, .s s⟩ .number = .ok ⟨.number, .n (.inf neg)⟩) ∧
@@ -331,6 +523,54 @@ theorem roundtrip_number_string_partial (E : Env) (fuel : Nat) (neg : Bool) (p :
   cases neg
   · exact ⟨⟨"+Inf", rfl, rfl⟩, ⟨"0", rfl, rfl⟩⟩
   · exact ⟨⟨"-Inf", rfl, rfl⟩, ⟨"-0", rfl, rfl⟩⟩
+
+/-- The exact condition under which number → string → number gives back an equal number: the text
+`Value.AsBigFloat().Text('f', -1)` of the number, read back by `ParseNumberVal`, is `RawEquals` to it.
+Decidable, and evaluated by the harness on every generated number; the recorded finding
+`integer-shortest-text-not-exact` is its complement. -/
+def numTextExact (n : Num) : Bool :=
+  match parseNumber (Num.textF n) with
+  | .ok m => Num.rawEqual m n
+  | _ => false
+
+/-- number → string → number returns a number equal to the original EXACTLY when `numTextExact` holds
+— for every environment and fuel. -/
+theorem roundtrip_number_string_iff (E : Env) (fuel : Nat) (n : Num) :
+    (∃ s m, convert E (fuel + 2) ⟨.number, .n n⟩ .string = .ok ⟨.string, .s s⟩ ∧
+      convert E (fuel + 2) ⟨.string, .s s⟩ .number = .ok ⟨.number, .n m⟩ ∧ Num.rawEqual m n = true) ↔
+    numTextExact n = true := by
+  have h1 : convert E (fuel + 2) ⟨.number, .n n⟩ .string = .ok ⟨.string, .s (Num.textF n)⟩ := rfl
+  have h2 : ∀ s, convert E (fuel + 2) ⟨.string, .s s⟩ .number =
+      (parseNumber s).map fun x => ⟨.number, .n x⟩ := fun _ => rfl
+  constructor
+  · rintro ⟨s, m, hs, hm, he⟩
+    rw [h1] at hs
+    simp only [Res.ok.injEq, Value.mk.injEq, Payload.s.injEq, true_and] at hs
+    subst hs
+    rw [h2] at hm
+    obtain ⟨x, hx, hxm⟩ := Res.map_eq_ok hm
+    simp only [Value.mk.injEq, Payload.n.injEq, true_and] at hxm
+    subst hxm
+    simp [numTextExact, hx, he]
+  · intro h
+    unfold numTextExact at h
+    cases hp : parseNumber (Num.textF n) with
+    | ok m =>
+      rw [hp] at h
+      exact ⟨_, m, h1, by rw [h2, hp]; rfl, h⟩
+    | err _ => rw [hp] at h; simp at h
+    | panic _ => rw [hp] at h; simp at h
+    | unmodelled => rw [hp] at h; simp at h
+
+/-- the recorded witness fails the condition; a small integer meets it -/
+theorem numTextExact_counterexample : numTextExact float1e23 = false := by
+  have h : parseNumber (Num.textF float1e23) = .ok (.fin false 11920928955078125 23 512) := rfl
+  simp only [numTextExact, h]
+  decide
+example : numTextExact (.fin true 12 0 64) = true := by
+  have h : parseNumber (Num.textF (.fin true 12 0 64)) = .ok (.fin true 3 2 512) := rfl
+  simp only [numTextExact, h]
+  decide
 
 /-- tuple → list has no inverse: no conversion from a list type to a tuple type is
 ever offered (so "tuple → list → tuple" cannot be asked for). -/
@@ -361,6 +601,41 @@ theorem roundtrip_object_map (E : Env) (hU : UnifyLaws E) (fuel : Nat) (T : Ty) 
   ⟨object_to_map_same hU fuel T ns its os ps hT hTo hTd hne hall hw hln,
    map_to_object_same fuel T ns its os ps hT hTd hall hos hnd hln hlo (wtZip_length hw).symm hnn⟩
 
+/-- object → map → object THROUGH ELEMENT CONVERSIONS: the attributes may have different types.
+`cs` are the element conversions `getConversionKnown` builds towards the map's element type `T`,
+`cs'` the ones it builds from `T` back to each attribute type.  If every attribute converts to
+`T` (giving the members `es'`) and every member converts back to its non-null attribute
+(`BackAll`), then the object converts to the map of the converted members, and converting that map
+to the object type returns the ORIGINAL object — for every environment satisfying `UnifyLaws`, every
+fuel and depth.  The hypotheses on the elements are conversions of the same model, so the theorem
+composes with `roundtrip_bool_string`, `roundtrip_number_string_iff`, and with itself. -/
+theorem roundtrip_object_map_elems (E : Env) (hU : UnifyLaws E) (fuel : Nat) (T : Ty) (ns : List String)
+    (its : List Ty) (os : List Bool) (ps : List Payload) (cs cs' : List Plan) (es' : List Value)
+    (hT : wf T = true) (hTo : hasOpt T = false) (hTd : hasDyn T = false) (hne : its ≠ [])
+    (hw : wtZip its ps = true) (hnd : ns.Nodup) (hln : ns.length = its.length)
+    (hlo : os.length = its.length) (hos : ∀ o ∈ os, o = false)
+    (hgc : gcAll E its T true = some cs)
+    (hgc' : mapToObjConvs (fun o => gck E T o true) T its os = some cs')
+    (hF : applyZip (apply E fuel) id cs (zipTys its ps) = .ok es') (hty : ∀ e ∈ es', e.ty = T)
+    (hB : BackAll (apply E fuel) cs' es' (zipTys its ps)) :
+    convert E (fuel + 2) ⟨.object ns its os, .smap ns ps⟩ (.map T) = .ok ⟨.map T, .smap ns (es'.map (·.v))⟩ ∧
+    convert E (fuel + 2) ⟨.map T, .smap ns (es'.map (·.v))⟩ (.object ns its os) =
+      .ok ⟨.object ns its os, .smap ns ps⟩ :=
+  object_map_object_elems hU fuel T ns its os ps cs cs' es' hT hTo hTd hne hw hnd hln hlo hos hgc hgc' hF hty hB
+
+/-- the hypotheses are satisfiable with real element conversions inside: `{a = true, b = "x"}` ↔
+`{a = "true", b = "x"} : map(string)` (bool → string out, string → bool back, the string as it is) -/
+example :
+    convert Env.simple 4 ⟨.object ["a", "b"] [.bool, .string] [false, false], .smap ["a", "b"] [.b true, .s "x"]⟩
+        (.map .string) = .ok ⟨.map .string, .smap ["a", "b"] [.s "true", .s "x"]⟩ ∧
+    convert Env.simple 4 ⟨.map .string, .smap ["a", "b"] [.s "true", .s "x"]⟩
+        (.object ["a", "b"] [.bool, .string] [false, false]) =
+      .ok ⟨.object ["a", "b"] [.bool, .string] [false, false], .smap ["a", "b"] [.b true, .s "x"]⟩ :=
+  roundtrip_object_map_elems Env.simple unifyLaws_simple 2 .string ["a", "b"] [.bool, .string] [false, false]
+    [.b true, .s "x"] [.wrap .string .boolToStr, .nil] [.wrap .bool .strToBool, .nil]
+    [⟨.string, .s "true"⟩, ⟨.string, .s "x"⟩] rfl rfl rfl (by simp) rfl (by decide) rfl rfl (by simp) rfl rfl rfl
+    (by simp) (.cons rfl rfl (.cons rfl rfl .nil))
+
 example : convert Env.simple 2 ⟨.object ["a", "b"] [.string, .string] [false, false],
       .smap ["a", "b"] [.s "x", .unk .unref]⟩ (.map .string) =
     .ok ⟨.map .string, .smap ["a", "b"] [.s "x", .unk .unref]⟩ := rfl
@@ -377,6 +652,27 @@ theorem to_placeholder_passthrough (E : Env) (fuel : Nat) (v : Value) (hm : v.is
       simp [getConv, gck, Ty.isDyn]
     simp [this, apply, applyStep, hm, Ty.isDyn]
 
+/-- … and for EVERY value — marked at any number of layers, ill-typed, anything — and every
+environment and fuel, the conversion to DynamicPseudoType does not panic and, when it returns, returns
+a value whose type conforms to the placeholder (no `RegularPair`, no laws). -/
+theorem no_panic_placeholder_target (E : Env) : ∀ (fuel : Nat) (v : Value),
+    (apply E fuel (.wrap .dyn .dynPass) v).isPanic = false ∧
+    ∀ r, apply E fuel (.wrap .dyn .dynPass) v = .ok r → conformsTo .dyn r = true
+  | 0, _ => ⟨rfl, by simp [apply]⟩
+  | fuel + 1, v => by
+    have ih := no_panic_placeholder_target E fuel v.unmark
+    have hc : ∀ r : Value, conformsTo .dyn r = true := by
+      intro r; simp [conformsTo, Ty.conformErrs]
+    simp only [apply, applyStep]
+    split
+    · cases hr : apply E fuel (.wrap .dyn .dynPass) v.unmark with
+      | ok r0 => exact ⟨rfl, fun r _ => hc r⟩
+      | err e => exact ⟨rfl, by simp⟩
+      | panic w => rw [hr] at ih; simp [Res.isPanic] at ih
+      | unmodelled => exact ⟨rfl, by simp⟩
+    · simp only [Ty.isDyn, if_true]
+      exact ⟨rfl, fun r _ => hc r⟩
+
 /-- The primitive conversions of the model are exactly the keys of
 `primitiveConversionsSafe` / `primitiveConversionsUnsafe` as re-read from the source
 on every check (`Generated/PrimConv.lean`). -/
@@ -384,6 +680,111 @@ theorem primConv_table (a b : Ty) (ha : isPrim a = true) (hb : isPrim b = true) 
     (primSafe a b).isSome = Generated.primConvSafe.any (fun p => p.1.equals a && p.2.equals b) ∧
     (primUnsafe a b).isSome = Generated.primConvUnsafe.any (fun p => p.1.equals a && p.2.equals b) := by
   cases a <;> simp [isPrim] at ha <;> cases b <;> simp [isPrim] at hb <;> decide
+
+/-! ## Well-typedness is preserved -/
+
+/-- The result of a successful conversion of a well-typed value (to a placeholder-free target)
+is well typed: a well-formed type without optional-attribute annotations and a payload that
+type can have, at every depth — so it can be fed to another conversion (C09's composed
+conversions rely on this). -/
+theorem result_well_typed_partial (E : Env) (hU : UnifyLaws E) (fuel : Nat) (v r : Value) (want : Ty)
+    (hp : RegularPair v want) (h : convert E fuel v want = .ok r) : Value.wt r = true :=
+  (convert_wt hU hp h).1
+
+/-- … and it holds no unknown at any depth when the input held none. -/
+theorem result_wholly_known_partial (E : Env) (hU : UnifyLaws E) (fuel : Nat) (v r : Value) (want : Ty)
+    (hp : RegularPair v want) (hk : Payload.whollyKnown v.v = true) (h : convert E fuel v want = .ok r) :
+    Payload.whollyKnown r.v = true :=
+  (convert_wt hU hp h).2 hk
+
+/-- The same for a conversion obtained from `GetConversion` / `GetConversionUnsafe`. -/
+theorem result_well_typed_getConversion_partial (E : Env) (hU : UnifyLaws E) (fuel : Nat) (uns : Bool)
+    (v r : Value) (want : Ty) (p : Plan) (hp : RegularPair v want)
+    (hg : getConv E v.ty want uns = some p) (h : apply E fuel p v = .ok r) :
+    Value.wt r = true ∧ (Payload.whollyKnown v.v = true → Payload.whollyKnown r.v = true) :=
+  apply_wt hU hp hg h
+
+/-! ## The laws hold of the environment the driver runs
+
+`Convert.driverEnv` is the `Env` of `Driver/HConvert.lean` (every `cv.*` operation diffed
+against /repo uses it).  The two laws the theorems above assume are theorems about it. -/
+
+/-- `unify` of the driver (`Unify.unifyTy`, fuel computed from the argument): identical
+well-formed annotation-free types unify to that type, at every depth. -/
+theorem unifyLaws_driver : UnifyLaws driverEnv := Unify.unifyLaws_std (Env.concrete Unify.unifyTy)
+
+/-- `setRules.Hash` / `setRules.Equivalent` of the driver (`hashC`, `equivC`): no panic and no
+error on well-typed, mark-free, wholly-known members of a well-formed element type. -/
+theorem setLaws_driver : SetLaws driverEnv := setLaws_concrete _
+
+theorem result_type_driver (fuel : Nat) (v r : Value) (want : Ty)
+    (hp : RegularPair v want) (h : convert driverEnv fuel v want = .ok r) : r.ty = want.stripOpt :=
+  result_type_partial _ unifyLaws_driver fuel v r want hp h
+
+theorem result_conforms_driver (fuel : Nat) (v r : Value) (want : Ty)
+    (hp : RegularPair v want) (h : convert driverEnv fuel v want = .ok r) : conformsTo want r = true :=
+  result_conforms_partial _ unifyLaws_driver fuel v r want hp h
+
+theorem result_well_typed_driver (fuel : Nat) (v r : Value) (want : Ty)
+    (hp : RegularPair v want) (h : convert driverEnv fuel v want = .ok r) : Value.wt r = true :=
+  result_well_typed_partial _ unifyLaws_driver fuel v r want hp h
+
+theorem idempotent_driver (fuel fuel' : Nat) (v r : Value) (want : Ty)
+    (hp : RegularPair v want) (h : convert driverEnv fuel v want = .ok r) :
+    convert driverEnv fuel' r want = .ok r :=
+  idempotent_partial _ unifyLaws_driver fuel fuel' v r want hp h
+
+/-- `Convert`, in the environment that is diffed against the Go code, never panics on a
+well-typed wholly-known value and a placeholder-free target — no hypothesis on the environment left. -/
+theorem no_panic_driver (fuel : Nat) (v : Value) (want : Ty)
+    (hp : RegularPair v want) (hk : Payload.whollyKnown v.v = true) :
+    (convert driverEnv fuel v want).isPanic = false :=
+  no_panic_partial _ unifyLaws_driver setLaws_driver fuel v want hp hk
+
+theorem no_panic_getConversion_driver (fuel : Nat) (uns : Bool) (v : Value) (want : Ty) (p : Plan)
+    (hp : RegularPair v want) (hk : Payload.whollyKnown v.v = true)
+    (hg : getConv driverEnv v.ty want uns = some p) : (apply driverEnv fuel p v).isPanic = false :=
+  no_panic_getConversion_partial _ unifyLaws_driver setLaws_driver fuel uns v want p hp hk hg
+
+/-- A conversion offered as safe never fails, in the driver's environment. -/
+theorem safe_total_driver (fuel : Nat) (v : Value) (want : Ty) (p : Plan)
+    (hp : RegularPair v want) (hk : Payload.whollyKnown v.v = true)
+    (hg : getConversion driverEnv v.ty want = some p) :
+    (∃ r, apply driverEnv fuel p v = .ok r ∧ r.ty = want.stripOpt) ∨ apply driverEnv fuel p v = .unmodelled :=
+  safe_total_partial _ unifyLaws_driver setLaws_driver fuel v want p hp hk hg
+
+theorem safe_sub_unsafe_driver (v : Value) (want : Ty) (p : Plan)
+    (hp : RegularPair v want) (hg : getConversion driverEnv v.ty want = some p) :
+    ∃ p', getConversionUnsafe driverEnv v.ty want = some p' ∧
+      ∀ fuel, apply driverEnv fuel p' v = apply driverEnv fuel p v :=
+  safe_sub_unsafe_partial _ unifyLaws_driver v want p hp hg
+
+/-! The three counterexamples of this file, restated in the driver's environment — the one whose every
+answer is diffed against the Go code — so that "FALSE of the code" does not rest on a toy
+environment or on a fuel bound chosen by hand. -/
+
+theorem result_resolves_placeholders_counterexample_driver :
+    convert driverEnv 4 ⟨.list (.map .bool), .seq []⟩ (.list (.map .dyn)) =
+      .ok ⟨.list (.map .dyn), .seq []⟩ ∧
+    resolvedIn (.list (.map .bool)) (.list (.map .dyn)) = false ∧
+    convert driverEnv 6 ⟨.list (.map .bool), .seq [.smap ["k"] [.b true]]⟩ (.list (.map .dyn)) =
+      .ok ⟨.list (.map .bool), .seq [.smap ["k"] [.b true]]⟩ := by
+  refine ⟨rfl, by decide, rfl⟩
+
+theorem safe_sub_unsafe_counterexample_driver :
+    (getConversion driverEnv subWitnessT (.map .dyn)).isSome = true ∧
+    (getConversionUnsafe driverEnv subWitnessT (.map .dyn)).isSome = false := by
+  decide
+
+theorem roundtrip_number_string_counterexample_driver :
+    convert driverEnv 2 ⟨.number, .n float1e23⟩ .string = .ok ⟨.string, .s "100000000000000000000000"⟩ ∧
+    convert driverEnv 2 ⟨.string, .s "100000000000000000000000"⟩ .number =
+      .ok ⟨.number, .n (.fin false 11920928955078125 23 512)⟩ ∧
+    Num.rawEqual (.fin false 11920928955078125 23 512) float1e23 = false := by
+  refine ⟨rfl, rfl, by decide⟩
+
+/-- the sample of the non-vacuity section, in the driver's environment: it really finishes -/
+example : (convert driverEnv 8 ⟨.list .bool, .seq [.b true, .null]⟩ (.list .string)).isOk = true := by decide
 
 /-! ## Non-vacuity: the hypotheses are satisfiable by non-trivial inputs -/
 
